@@ -16,6 +16,7 @@ import jesse.helpers as jh
 assert not jh.is_unit_testing()
 TS0 = 1609459200000
 seen = {}
+DATA_ROUTES = []
 
 class S(Strategy):
     def should_long(self): return self.index == 2
@@ -42,6 +43,13 @@ class S(Strategy):
             seen['leverage'] = self.leverage
             seen['fee_rate'] = self.fee_rate
         self.shared_vars['touched'] = self.shared_vars.get('touched', 0) + 1
+        if self.read_tf and self.index >= 1:
+            seen['rows_' + self.read_tf] = len(self.get_candles(self.exchange, self.symbol, self.read_tf))
+    read_tf = None
+    abort_at = None
+    def after(self):
+        if self.abort_at is not None and self.index == self.abort_at:
+            raise RuntimeError('strategy failure part-way through the session')
 
 def candles(n=90):
     rows = []
@@ -58,12 +66,22 @@ def session(cfg):
          'warm_up_candles': cfg.get('warmup', 0)}
     ex = c['exchange']
     S.sma_period = cfg.get('sma')
-    routes = [{'exchange': ex, 'strategy': S, 'symbol': 'BTC-USDT', 'timeframe': '1m'}]
+    S.read_tf = cfg.get('data_tf')
+    S.abort_at = cfg.get('abort_at')
+    routes = [{'exchange': ex, 'strategy': S, 'symbol': 'BTC-USDT', 'timeframe': cfg.get('timeframe', '1m')}]
+    if cfg.get('data_tf'):
+        # one list object handed to every session of the process, as a caller looping over configurations does
+        if not DATA_ROUTES:
+            DATA_ROUTES.append({'exchange': ex, 'symbol': 'BTC-USDT', 'timeframe': cfg['data_tf']})
+        data_routes = DATA_ROUTES
+    else:
+        data_routes = []
+    keep_dr = [dict(r_) for r_ in data_routes]
     arr = candles()
     keep = arr.copy()
     seen.clear()
     try:
-        r = research.backtest(c, routes, [], {f'{ex}-BTC-USDT': {'exchange': ex, 'symbol': 'BTC-USDT', 'candles': arr}})
+        r = research.backtest(c, routes, data_routes, {f'{ex}-BTC-USDT': {'exchange': ex, 'symbol': 'BTC-USDT', 'candles': arr}})
     except Exception as e:
         if cfg.get('abort'):
             return {'aborted': type(e).__name__}
@@ -72,7 +90,7 @@ def session(cfg):
     out = {k: (round(float(m[k]), 8) if isinstance(m.get(k), (int, float)) else m.get(k)) for k in
            ('total', 'net_profit', 'fee', 'finishing_balance', 'starting_balance') if k in m}
     out['seen'] = {k: (v if not isinstance(v, float) else round(v, 8)) for k, v in seen.items()}
-    out['args_unmodified'] = bool(np.array_equal(arr, keep))
+    out['args_unmodified'] = bool(np.array_equal(arr, keep)) and [dict(r_) for r_ in data_routes] == keep_dr
     return out
 
 seq = json.loads(sys.argv[1])
@@ -100,6 +118,12 @@ SCENARIOS = {
     'drivers': ([{'exchange': 'Sandbox', 'fee': 0.0}], {'exchange': 'Bybit USDT Perpetual', 'fee': 0.0}),
     'vars': ([{'exchange': 'Sandbox'}], {'exchange': 'Sandbox'}),
     'warmup': ([{'exchange': 'Sandbox', 'warmup': 50}], {'exchange': 'Sandbox', 'warmup': 0, 'sma': 60}),
+    # an earlier session on a 5m route aborts part-way (after its entry order was submitted, before it was executed); the probe
+    # reads a 15m data route through a data-routes list that the caller reuses
+    'aborted-then-other-timeframes': ([{'exchange': 'Sandbox', 'timeframe': '5m', 'abort_at': 2, 'abort': True}],
+                                      {'exchange': 'Sandbox', 'timeframe': '5m', 'data_tf': '15m'}),
+    'same-data-routes-twice': ([{'exchange': 'Sandbox', 'timeframe': '5m', 'data_tf': '15m'}], {'exchange': 'Sandbox', 'timeframe': '5m', 'data_tf': '15m'}),
+    'aborted-with-a-pending-market-order': ([{'exchange': 'Sandbox', 'abort_at': 2, 'abort': True}], {'exchange': 'Sandbox'}),
     'spot-then-futures': ([{'exchange': 'Sandbox', 'type': 'spot'}], {'exchange': 'Sandbox', 'type': 'futures', 'leverage': 3}),
 }
 
@@ -172,11 +196,11 @@ def replay(pl):
             return {'confirmed': False, 'error': err}
         return {'confirmed': bool(d), 'detail': d or 'equal calls return equal, unshared results'}
     # the recorded finding (exchange-driver table frozen at the first session) is replayed by replay_finding only
-    order = ['memo', 'vars', 'spot-then-futures', 'warmup']
+    order = ['memo', 'vars', 'spot-then-futures', 'warmup', 'aborted-then-other-timeframes', 'same-data-routes-twice', 'aborted-with-a-pending-market-order']
     if ob.startswith('drivers'):
         order = ['drivers']
     elif ob.startswith('store-reset'):
-        order = ['vars', 'spot-then-futures']
+        order = ['vars', 'spot-then-futures', 'aborted-with-a-pending-market-order', 'aborted-then-other-timeframes']
     elif ob.startswith('set_config') or ob.startswith('get_config') or ob.startswith('reset_config'):
         order = ['memo', 'spot-then-futures', 'warmup']
     for name in order:
